@@ -10,7 +10,8 @@ package stream
 // only); callers rely on that to keep their own buffers across the call.
 
 //@ func (*Stream).CanWrite
-//@ prop C07
+//@ prop C07 C18
+//@ ensures[C18] result <==> (s.state == 1 || s.state == 3)
 //@ note no modifies clause: proved to change nothing
 
 //@ func (*Stream).GetSessionKey
@@ -20,3 +21,62 @@ package stream
 //@ func (*Stream).Read
 //@ prop C07
 //@ note no modifies clause: proved to change nothing (receives from channels only)
+
+// ---- C18: half-close and close per protocol ----
+//
+// States: 0 Opening, 1 Open, 2 HalfClosedLocal, 3 HalfClosedRemote, 4 Closed. Documented transitions:
+// 0->1 (Open), 1->2 and 3->4 (local end of write), 1->3 and 2->4 (remote end of write), any->4 (close/reset).
+// Data carried by a frame is queued for the reader BEFORE that frame's end-of-write signal is raised;
+// Read drains the queue before it reports end of stream (all three exits of its select are followed by a
+// non-blocking receive from the queue - checked by reading; channel operations are not modelled).
+
+//@ ghost var c18fin int
+//@ guarded Stream.mu: localFinWrite, remoteFinWrite
+//@ lockinv Stream.mu(s): s.localFinWrite ==> s.state != 1 && s.state != 3
+//@ fieldwritesonly[C18] Stream.localFinWrite: (*Stream).CloseWrite
+//@ fieldwritesonly[C18] Stream.remoteFinWrite: (*Stream).HandleRemoteFinWrite
+
+//@ func (*Manager).HandleStreamData
+//@ prop C18
+//@ modifies *, c18fin
+//@ ghostinit c18fin = 0
+//@ after call HandleRemoteFinWrite set c18fin = 1
+//@ at call PushData assert c18fin == 0 && $1 == data
+//@ at call HandleRemoteFinWrite assert flags % 2 == 1
+//@ note the end-of-write signal is raised only for a frame that carries the FIN_WRITE flag, and never before the data of the same frame has been queued
+
+//@ func (*Stream).CanRead
+//@ prop C18
+//@ ensures result <==> (s.state == 1 || s.state == 2)
+
+//@ func (*Stream).CloseWrite
+//@ prop C18
+//@ modifies *
+//@ check lockset
+//@ ensures s.state == old(s.state) || (old(s.state) == 1 && s.state == 2) || (old(s.state) == 3 && s.state == 4)
+//@ ensures s.state != 1 && s.state != 3
+//@ note after the local half-close CanWrite is false (writers are refused) while CanRead stays true in state 2
+
+//@ func (*Stream).HandleRemoteFinWrite
+//@ prop C18
+//@ modifies *
+//@ check lockset
+//@ ensures s.state == old(s.state) || (old(s.state) == 1 && s.state == 3) || (old(s.state) == 2 && s.state == 4)
+
+//@ func (*Stream).Close$1
+//@ prop C18
+//@ modifies *
+//@ ensures s.state == 4
+
+//@ func (*Manager).HandleStreamReset
+//@ prop C18
+//@ modifies *
+//@ at call Unlock assert forall k uint64: k != streamID ==> (has(m.streams, k) <==> old(has(m.streams, k))) && m.streams[k] == old(m.streams[k])
+//@ at call (*Stream).Close assert $0 == old(m.streams[streamID])
+//@ note a reset removes and closes only the addressed stream
+
+//@ func (*Manager).RemoveStream
+//@ prop C18
+//@ modifies *
+//@ at call Unlock assert forall k uint64: k != streamID ==> (has(m.streams, k) <==> old(has(m.streams, k))) && m.streams[k] == old(m.streams[k])
+//@ at call (*Stream).Close assert $0 == old(m.streams[streamID])
